@@ -302,3 +302,30 @@ func TestCheckUnshardUpdate(t *testing.T) {
 		})
 	}
 }
+
+func TestMentionsShardTable(t *testing.T) {
+	rt, err := router.NewRouter(&models.Namespace{
+		DefaultSlice: "slice-0",
+		Slices:       []*models.Slice{{Name: "slice-0"}, {Name: "slice-1"}},
+		ShardRules: []*models.Shard{
+			{DB: "db", Table: "tbl_ks", Type: "hash", Key: "id", Locations: []int{1, 1}, Slices: []string{"slice-0", "slice-1"}},
+			{DB: "db", Table: "Order-Items", Type: "hash", Key: "id", Locations: []int{1, 1}, Slices: []string{"slice-0", "slice-1"}},
+		},
+	})
+	assert.Equal(t, err, nil)
+	tests := []struct {
+		sql  string
+		want bool
+	}{
+		{"select * from a", false},
+		{"select * from a, TBL_KS", true},
+		{"select * from a, tbl_ks_2", false},
+		{"select * from a, `order-items`", true},
+		{"select * from a join `ORDER-ITEMS` b on a.id = b.id", true},
+		{"select * from a, `order-lines`", false},
+		{"select items from a", false},
+	}
+	for _, tt := range tests {
+		assert.Equal(t, tt.want, MentionsShardTable(tt.sql, rt), tt.sql)
+	}
+}
